@@ -325,6 +325,9 @@ class SymWorld(WorldBase):
         """term-level equality of two scalars (python value or SV)."""
         return scalar_eq(a, b)
 
+    def leq(self, a, b):
+        return a <= b
+
     def alg(self, **kw):
         from . import nra
         return nra.SymAlg(**kw)
@@ -461,6 +464,9 @@ class ConcreteWorld(WorldBase):
                 return a == b
             return abs(a - b) <= 1e-9 * max(1.0, abs(a), abs(b))
         return a == b
+
+    def leq(self, a, b):
+        return a <= b + 1e-9 * max(1.0, abs(a), abs(b))
 
     def alg(self, **kw):
         from . import nra
